@@ -202,7 +202,7 @@ struct Init {
             }
             Profile p; p.id = "C15"; p.level = "exploration"; p.space_seeds = total_progs;
             p.technique = "deterministic simulation: complete enumeration of (start,count,stride) tuples on small shapes with a byte diff of the simulated disk around every request";
-            p.rule = "shapes {1},{2},{3},{2,3},{3,2},{1,3},{2,2,2} x {fixed, record} x {get, put} x {relaxed, strict coordinate bound} x API forms {vara, var1, varn, nonblocking vara + wait; vars and varm for rank <= 2}; per dimension start and count range over [-1, len+1] and stride over {-1,0,1,2,len+1}; every tuple of that product is one case (" + std::to_string(total_progs) + " programs of " + std::to_string(B) + " cases; seeds 1.." + std::to_string(total_progs) + " enumerate them all, later seeds repeat them under other schedules / formats / rank counts); around each request the file image is snapshotted and diffed; oracle: return code == reference predicate (documented order EINVALCOORDS, EEDGE/ENEGATIVECNT, ESTRIDE), a rejected or zero-length request changes no byte, an accepted one only bytes of the addressed elements or the record count, values read back == model; non-trivial = the program contained both an accepted and a rejected request";
+            p.rule = "shapes {1},{2},{3},{2,3},{3,2},{1,3},{2,2,2} x {fixed, record} x {get, put} x {relaxed, strict coordinate bound} x API forms {vara, var1, varn, nonblocking vara + wait; vars and varm for rank <= 2}; per dimension start and count range over [-1, len+1] and stride over {-1,0,1,2,len+1}; every tuple of that product is one case (" + std::to_string(total_progs) + " programs of " + std::to_string(B) + " cases; seeds 1.." + std::to_string(total_progs) + " enumerate them all, later seeds repeat them under other schedules / formats / rank counts, record-variable puts on 2..3 ranks with intra-node aggregation (accepted tuples only) and varn puts with an extra zero-length sub-request beyond the last record); around each request the file image is snapshotted and diffed; oracle: return code == reference predicate (documented order EINVALCOORDS, EEDGE/ENEGATIVECNT, ESTRIDE), a rejected or zero-length request changes no byte, an accepted one only bytes of the addressed elements or the record count, values read back == model; non-trivial = the program contained both an accepted and a rejected request";
             p.gen = [dom](uint64_t seed, bool th) {
                 Program q; q.seed = seed; q.cfg.profile = "C15";
                 long long pi = (long long)((seed - 1) % (uint64_t)total_progs); uint64_t lap = (seed - 1) / (uint64_t)total_progs;
@@ -211,13 +211,15 @@ struct Init {
                 sim::Rng rng(seed * 0x9e3779b97f4a7c15ULL + 5);
                 q.cfg.sim.nprocs = (lap == 0) ? 1 + (int)(pi % 2) : 1 + (int)rng.below(3);
                 if (b.rec && !b.rd) q.cfg.sim.nprocs = 1;   // invalid arguments in a collective put to a record variable on several ranks: C08 known finding (zero-req path), kept out of this check
+                // ... except on every second later lap: 2..3 ranks of one node with intra-node aggregation, and only the tuples the reference predicate accepts
+                bool agg = lap >= 1 && lap % 2 == 1 && b.rec && !b.rd; if (agg) q.cfg.sim.nprocs = 2 + (int)rng.below(2);
                 int np = q.cfg.sim.nprocs; q.cfg.sim.node_of.assign(np, 0);
                 q.cfg.sim.deviate = lap ? 0.2 : 0.0; q.cfg.format = (int[]){1, 2, 5}[(pi + lap) % 3];
                 if (b.strict) q.cfg.sim.env["PNETCDF_RELAX_COORD_BOUND"] = "0";
                 Model gm; gm.init(np, 1); gm.strict_coord = b.strict; gm.cur_ops = &q.ops;
                 auto emit = [&](Op op) -> bool { q.ops.push_back(op); gm.cur_ops = &q.ops; bool ok = model_step(gm, q.ops.back()); if (!ok) { q.ops.pop_back(); gm.opidx--; } return ok; };
                 auto mk = [&](int kind) { Op o; o.kind = kind; o.file = 0; return o; };
-                { Op c = mk(OP_CREATE); c.name = "/sim/r.nc"; c.a[0] = q.cfg.format; emit(c); }
+                { Op c = mk(OP_CREATE); c.name = "/sim/r.nc"; c.a[0] = q.cfg.format; if (agg) c.hints["nc_num_aggrs_per_node"] = std::to_string(1 + (int)rng.below(np - 1)); emit(c); }
                 size_t nd = b.shape.size();
                 for (size_t d = 0; d < nd; d++) { Op dd = mk(OP_DEF_DIM); dd.name = "d" + std::to_string(d); dd.a[0] = (b.rec && d == 0) ? 0 : b.shape[d]; emit(dd); }
                 { Op g = mk(OP_DEF_VAR); g.name = "guard0"; g.a[0] = NC_INT; g.dims = {}; if (nd > 1 || !b.rec) { g.dims = {(long long)(nd - 1)}; } emit(g); }
@@ -242,10 +244,15 @@ struct Init {
                     }
                     if (b.form == F_VARM) { a.imap.assign(nd, 1); long long mm = 1; for (int d = (int)nd - 1; d >= 0; d--) { a.imap[d] = mm; mm *= std::max<long long>(a.count[d], 1); } }
                     if (b.form == F_VARN) { a.nstart = {a.start}; a.ncount = {a.count}; }
-                    { Op c5 = mk(OP_CHECKPOINT); c5.a[0] = 5; emit(c5); }
+                    if (b.form == F_VARN && lap >= 1 && b.rec && !b.rd && rng.chance(0.5)) {   // plus a zero-length sub-request placed beyond the last record: it addresses nothing, so it must change nothing (incl. the record count)
+                        std::vector<long long> zs(nd, 0), zc(nd, 1); zs[0] = gm.files[0].numrecs + 1 + (long long)rng.below(4); zc[rng.below(nd)] = 0;
+                        if (rng.chance(0.5)) { a.nstart.push_back(zs); a.ncount.push_back(zc); } else { a.nstart.insert(a.nstart.begin(), zs); a.ncount.insert(a.ncount.begin(), zc); }
+                    }
                     Op o = mk(b.nb ? (b.rd ? OP_IGET : OP_IPUT) : (b.rd ? OP_GET : OP_PUT)); o.var = 1; o.coll = true;
                     int actor = (int)(t % np);
                     for (int r = 0; r < np; r++) { Access x = a; x.active = (r == actor); o.acc.push_back(x); }
+                    if (agg) { Model trial = gm; Op t2 = o; trial.cur_ops = nullptr; if (!model_step(trial, t2) || t2.acc[actor].exp_rc != NC_NOERR) continue; }
+                    { Op c5 = mk(OP_CHECKPOINT); c5.a[0] = 5; emit(c5); }
                     emit(o);
                     if (b.nb) { Op w = mk(OP_WAIT); w.coll = true; w.waits.resize(np); for (auto &ws : w.waits) ws.mode = 1; emit(w); }
                     { Op c6 = mk(OP_CHECKPOINT); c6.a[0] = 6; emit(c6); }
